@@ -77,7 +77,10 @@ def bases(cls):
         return {"sphere": dict(ax=[1.5], c=[3.0, -2.5, 7.0 / 3]), "sphere_far": dict(ax=[250.0], c=[-2000.0, 1100.0, -400.0])}
     if cls == "Ellipsoid":
         return {"ellipsoid_abc": dict(ax=[1.25, 3.0, 2.0], c=[3.0, -2.5, 7.0 / 3]),
-                "ellipsoid_cba": dict(ax=[5.0, 0.5, 0.125], c=[-6.0, 8.0, 1.0])}
+                "ellipsoid_cba": dict(ax=[5.0, 0.5, 0.125], c=[-6.0, 8.0, 1.0]),
+                # a hundred thousand sizes from the origin: what is reported about the centred shape must not be obtained by
+                # subtracting the offset again
+                "ellipsoid_far": dict(ax=[1.0, 3.0, 2.0], c=[300000.0, -200000.0, 100000.0])}
     raise KeyError(cls)
 
 
